@@ -112,6 +112,25 @@ def c07b(F, R):
             else:
                 R.ok(f"arm|{v}", detail=f"reviewed silent variant {v}")
             continue
+        # the report is unconditional: the push is a statement of the arm's own block and nothing before it leaves the arm
+        body_ = peel(arm["body"])
+        stmts_ = (body_.get("stmts") or []) + ([{"k": "Expr", "e": body_["expr"]}] if body_.get("k") == "Block" and body_.get("expr") else [])
+        if body_.get("k") != "Block":
+            stmts_ = [{"k": "Expr", "e": body_}]
+        top_push = None
+        for i_, st_ in enumerate(stmts_):
+            e_ = peel(st_.get("e") or {})
+            if e_.get("k") == "MethodCall" and e_["name"] == "push" and ekey(e_["recv"]) in (NODES, ERRS):
+                top_push = i_
+                break
+        escapes = []
+        for st_ in (stmts_[:top_push] if top_push is not None else stmts_):
+            for y in walk(st_, pats=False):
+                if y.get("k") in ("Continue", "Break", "Ret") and not (y.get("exp") or "").startswith("desugar:"):
+                    escapes.append(y)
+        if (NODES in pushes or ERRS in pushes) and (top_push is None or escapes):
+            R.bad(f"arm|{v}|conditional", f"arm {v} reports only on some paths (the push is nested under a condition, or a `continue`/`return` comes before it): whenever the other path is taken the text this error stood for is dropped without a word - the error may be all that is left of a half-parsed statement", loc(escapes[0]) if escapes else loc(arm))
+            continue
         if NODES in pushes:
             R.ok(f"arm|{v}", detail=f"{v}: pushes node(s)")
         elif ERRS in pushes and recovers:
